@@ -42,6 +42,13 @@ structure PrimsOK (P : Prims) (F : RealFns K) : Prop where
   cos : ∀ I (x : K), encl I x → encl (P.cos I) (F.cos x)
   pi : encl P.pi F.pi
 
+/-- what is needed of the abstract real functions to relate the two ways a real power is computed
+(`real_eval`: integer powers; `real_interval_eval`: `exp (y * log x)` for a positive base) -/
+structure FnsSpec (F : RealFns K) : Prop where
+  exp_zero : F.exp 0 = 1
+  log_one : F.log 1 = 0
+  rpow_int : ∀ (x : K) (p : Int), 0 < x → F.exp ((p : K) * F.log x) = if p ≥ 0 then x ^ p.toNat else (x ^ (-p).toNat)⁻¹
+
 /-- value of a nat / int subterm (`of_nat t`, `of_int t`, nat exponents) in the typed semantics -/
 def natVal (e : AExpr) : Nat :=
   match den (fun _ => .b false) e with
@@ -59,10 +66,19 @@ def numVal (e : AExpr) : Rat :=
   | .ok v => v.toRat
   | .error _ => 0
 
+/-- `x ^ p` for an integer `p` (`0 ^ p = 0` for `p < 0`, as `ratIntPow`) -/
+def zpowK (x : K) (p : Int) : K := if p ≥ 0 then x ^ p.toNat else (x ^ (-p).toNat)⁻¹
+
+/-- the exponent of a real power when it is (syntactically evaluable to) an integer -/
+def intExp (b : AExpr) : Option Int :=
+  match realRec b with
+  | .ok v => if v.toRat.den = 1 then some v.toRat.num else none
+  | .error _ => none
+
 /-- The value of a variable-free real term built from numerals, `of_nat`/`of_int` of evaluable
 terms, `+ - * /`, inverse, powers, `pi` and the named functions, with the library's definitions
-(`tan = sin / cos`, `cot = cos / sin`, `sec = 1 / cos`, `csc = 1 / sin`, `x ^ y = exp (y * log x)` for
-`0 < x`).  Other terms get 0; the theorem below only speaks about terms the evaluator accepts. -/
+(`tan = sin / cos`, `cot = cos / sin`, `sec = 1 / cos`, `csc = 1 / sin`, `x ^ y = exp (y * log x)` for `0 < x`; for `x ≤ 0`: 1 if `y = 0`, 0 if `x = 0`, the integer power for an
+integer `y`).  Other terms get 0; the theorem below only speaks about terms the evaluator accepts. -/
 def tval (F : RealFns K) : AExpr → K
   | .ofNat T a => if isNumber (.ofNat T a) then ((numVal (.ofNat T a) : Rat) : K) else (((natVal a : Nat) : Rat) : K)
   | .ofInt a => (((intVal a : Int) : Rat) : K)
@@ -73,7 +89,13 @@ def tval (F : RealFns K) : AExpr → K
   | .divide a b => if isNumber (.divide a b) then ((numVal (.divide a b) : Rat) : K) else tval F a / tval F b
   | .inverse a => ((1 : Rat) : K) / tval F a
   | .power _ a b =>
-    if typeOf b == .nat then tval F a ^ natVal b else F.exp (tval F b * F.log (tval F a))
+    if typeOf b == .nat then tval F a ^ natVal b
+    else if 0 < tval F a then F.exp (tval F b * F.log (tval F a))   -- x ^ y = exp (y * log x) for 0 < x
+    else if tval F b = 0 then 1                                      -- x ^ 0 = 1
+    else if tval F a = 0 then 0                                      -- 0 ^ y = 0 for y ≠ 0
+    else match intExp b with
+      | some p => zpowK (tval F a) p                                 -- negative base, integer exponent
+      | none => 0
   | .pi => F.pi
   | .fn f a =>
     match f with
